@@ -1,7 +1,6 @@
 SPECIFICATION Spec
 CONSTANTS
   MaxWeight = 7
-  MaxOps = 5
   Rich = TRUE
 VIEW View
 CONSTRAINT Bound
